@@ -219,7 +219,7 @@ def run_chunk(chunk):
                 j = mt.to_json()
                 for op, relc in ops_for(n):
                     idx += 1
-                    order = (None, 'rev', 'export')[idx % 3]
+                    order = (None, 'rev', 'export', 'written')[idx % 4]
                     jj = j
                     if relc is None and order == 'rev' and idx % 2 and n >= 2:
                         # a token without a tag (TIGER <t> without pos attribute): no option value may match it
